@@ -33,6 +33,8 @@ func init() {
 			"the datasource announces exactly the JSON fields the model serialises per __typename; the planner's input keys are the keys Source.Load decodes; the planner's includeDeprecated filter covers every collection whose elements carry isDeprecated and reads the key the model writes. " +
 			"It does not decide the round trip toSDL(fromIntrospection(generate(S))) ~ S nor the engine's answers as values.",
 		Mutants: []Mutant{
+			{Name: "introspection responses encoded into a buffer kept on the shared Source (seeded change C17-11)", File: "v2/pkg/engine/datasource/introspection_datasource/source.go", Rule: "C17-R11", Key: "Source.Load/never-writes-the-shared-source",
+				Old: "\tif req.RequestType == TypeRequestType {\n\t\treturn s.singleTypeBytes(req.TypeName)\n\t}\n", New: "\ts.introspectionData = s.introspectionData\n\tif req.RequestType == TypeRequestType {\n\t\treturn s.singleTypeBytes(req.TypeName)\n\t}\n"},
 			// R1
 			{Name: "union member registration lost in a merge", File: c17GeneratorGo, Rule: "C17-R1", Key: "introspectionVisitor.EnterUnionMemberType",
 				Old: "\twalker.RegisterEnterUnionMemberTypeVisitor(&visitor)\n", New: ""},
@@ -219,6 +221,7 @@ func c17ReportsError(info *types.Info, cc *ast.CaseClause) bool {
 }
 
 func runC17(r *fw.Run) {
+	defer c17SourceIsReadOnly(r)
 	p := r.Prog
 	pk := p.Pkg("introspection")
 	ds := p.Pkg("introspds")
@@ -1800,4 +1803,84 @@ func c17PredicateOrder(pred *fw.FuncInfo, typename map[string]map[string]bool) i
 		return true
 	})
 	return found
+}
+
+// c17SourceIsReadOnly (R11, added after a seeded change made Source.Load encode into a buffer kept on the Source): the
+// introspection Source is part of the cached plan and is shared by all concurrent and later requests. Nothing reachable from
+// Source.Load / LoadWithFiles writes receiver state: no assignment through the receiver, no address of a receiver field, no
+// call of a pointer-receiver method on a receiver field held by value (bytes.Buffer and the like).
+func c17SourceIsReadOnly(r *fw.Run) {
+	p := r.Prog
+	r.Rule("C17-R11", "the introspection Source (shared by all requests through the cached plan) is never written by what Source.Load / LoadWithFiles reach: no store through the receiver, no address of a receiver field, no pointer-receiver method on a field Source holds by value")
+	pk := p.Pkg("introspds")
+	info := pk.TypesInfo
+	work := []*fw.FuncInfo{}
+	seen := map[*types.Func]bool{}
+	for _, n := range []string{"Source.Load", "Source.LoadWithFiles"} {
+		if fi := p.Func("introspds", n); fi != nil {
+			work = append(work, fi)
+			seen[fi.Obj] = true
+		} else {
+			r.Error("C17-R11: %s not found", n)
+		}
+	}
+	nFuncs := 0
+	for len(work) > 0 {
+		fi := work[len(work)-1]
+		work = work[:len(work)-1]
+		sig := fi.Obj.Type().(*types.Signature)
+		if sig.Recv() == nil || fw.RecvName(sig.Recv().Type()) != "Source" {
+			continue
+		}
+		nFuncs++
+		recv := types.Object(sig.Recv())
+		var bad []string
+		note := func(what string, n ast.Node) { bad = append(bad, what+" at "+p.Pos(n.Pos())) }
+		fw.WalkAll(fi.Decl.Body, func(nd ast.Node) bool {
+			for _, t := range fw.WriteTargets(info, nd) {
+				if fw.RootObj(info, t) == recv {
+					if _, isSel := ast.Unparen(t).(*ast.Ident); !isSel {
+						note("store into "+types.ExprString(t), nd)
+					}
+				}
+			}
+			switch x := nd.(type) {
+			case *ast.UnaryExpr:
+				if x.Op == token.AND && fw.RootObj(info, x.X) == recv {
+					if _, isID := ast.Unparen(x.X).(*ast.Ident); !isID {
+						note("address of "+types.ExprString(x.X), nd)
+					}
+				}
+			case *ast.CallExpr:
+				if fn := fw.Callee(info, x); fn != nil {
+					if callee := p.FuncOf(fn); callee != nil && callee.Pkg == fi.Pkg && !seen[fn] {
+						seen[fn] = true
+						work = append(work, callee)
+					}
+					if sel, ok := ast.Unparen(x.Fun).(*ast.SelectorExpr); ok && fw.RootObj(info, sel.X) == recv {
+						direct := false // s.f.M(): a field declared in Source itself (data reached through a pointer is the schema model, not Source state)
+						if fs, isSel := ast.Unparen(sel.X).(*ast.SelectorExpr); isSel {
+							if id, isID := ast.Unparen(fs.X).(*ast.Ident); isID && info.Uses[id] == recv {
+								direct = true
+							}
+						}
+						if direct {
+							// method on a receiver field: mutating if the method has a pointer receiver and the field is held by value
+							if ms, _ := fn.Type().(*types.Signature); ms != nil && ms.Recv() != nil {
+								_, ptrRecv := ms.Recv().Type().(*types.Pointer)
+								_, fieldIsPtr := info.TypeOf(sel.X).(*types.Pointer)
+								if ptrRecv && !fieldIsPtr {
+									note("call of "+types.ExprString(sel)+" (pointer-receiver method on a by-value field)", nd)
+								}
+							}
+						}
+					}
+				}
+			}
+			return true
+		})
+		r.Check(len(bad) == 0, "C17-R11", fi.Name()+"/never-writes-the-shared-source", fi.Pos(), fi.Name()+" leaves the shared Source untouched",
+			strings.Join(bad, "; ")+" — the Source belongs to the cached plan: concurrent introspection requests (e.g. __type(name:) for different types) overwrite each other's response bytes — invalid JSON or another type's description is returned")
+	}
+	r.Expect("C17-R11", "Source methods reachable from Load", nFuncs, 3)
 }
